@@ -119,6 +119,7 @@ def histories(draw, kind, tier):
     )
     ops = draw(st.lists(op, min_size=6, max_size=40 if tier == "quick" else 60))
     return {"kind": kind, "maxsize": maxsize, "typed": typed,
+            "fn_form": draw(st.sampled_from(["async", "async", "def-eager"])),
             "eq_instances": draw(st.sampled_from([False, False, True])) if kind == "method" else False,
             "ops": [[o[0], o[1]] + ([[list(o[2][0]), [list(p) for p in o[2][1]]]] if len(o) > 2 else [])
                     for o in ops]}
@@ -263,6 +264,23 @@ def build_targets(case, extra=None):
 
         extra["sibling"] = (asib, ssib)
 
+    if kind == "function" and case.get("fn_form") == "def-eager":
+        # "any other callable that returns an awaitable": a plain def that does its work - and fails, if it is going
+        # to - when it is CALLED, and returns an awaitable that only delivers the result
+        @adeco
+        def afn(*args, **kwargs):
+            result = body(alog, args, kwargs)
+
+            async def deliver():
+                return result
+
+            return deliver()
+
+        @sdeco
+        def sfn(*args, **kwargs):
+            return body(slog, args, kwargs)
+
+        return _ret([afn, afn], [sfn, sfn], alog, slog, norm, 0)
     if kind == "function":
         @adeco
         async def afn(*args, **kwargs):
